@@ -34,7 +34,7 @@ def spec_selection(w, version):
         jl = z3.Or(SPEC.is_m(em, 'join'), SPEC.is_m(em, 'invite'), SPEC.is_m(em, 'knock'))
         sel.append((jl, 'RoomJoinRules', b''))
         # third-party invite token and restricted-join authoriser
-        sel.append((z3.And(SPEC.is_m(em, 'invite'), w.ev_tpi.ok()), 'RoomThirdPartyInvite', b't'))
+        sel.append((z3.And(SPEC.is_m(em, 'invite'), w.ev_tpi.ok(), w.ev_tpi_token == 1), 'RoomThirdPartyInvite', b't'))
         sel.append((z3.And(SPEC.is_m(em, 'join'), z3.BoolVal(version >= 8), w.ev_authorised_via.ok()), 'RoomMember', w.authoriser.str))
     return sel
 
@@ -94,6 +94,7 @@ def run_family(C, job):
             allowed = z3.BoolVal(False)
             if kind == 'member':
                 allowed = z3.Or(sk == 0, z3.Not(w.ev_membership.ok()), z3.And(SPEC.is_m(w.ev_membership, 'invite'), w.ev_tpi.bad()),
+                                z3.And(SPEC.is_m(w.ev_membership, 'invite'), w.ev_tpi.ok(), w.ev_tpi_token != 1),
                                 z3.And(SPEC.is_m(w.ev_membership, 'join'), z3.BoolVal(version >= 8), w.ev_authorised_via.bad()))
             bad.append(z3.And(cond, z3.Not(allowed))); continue
         # every spec pair selected, every selected pair in the spec, no duplicates
@@ -121,7 +122,7 @@ def run_family(C, job):
                 if pairs[i][0] == pairs[j][0]:
                     conds.append(z3.Not(key_eq(pairs[i][1], pairs[j][1])))
         bad.append(z3.And(cond, z3.Not(z3.And(*conds))))
-    r, m = C.solve(f'{label}: selected auth-event keys == the specification\'s selection (no duplicates)', base + list(E.axioms) + [z3.Or(*bad) if bad else z3.BoolVal(False)])
+    r, m = C.solve_split(f'{label}: selected auth-event keys == the specification\'s selection (no duplicates)', base + list(E.axioms), bad)
     if r == 'sat':
         vec = SPEC.concretise(w, m, version); vec['op'] = 'c09:select'
         res = C.native(vec); vec['native'] = res
@@ -139,18 +140,27 @@ def run_family(C, job):
     C.absorb(E)
     viol = []
     nreads = 0
-    for o in outs:
-        fetches = [n for n in o.st.notes if n[0] == 'fetch']
-        nreads += len(fetches)
-        for _, var, key in fetches:
-            # the key must be selected (by the *implementation's* selection, which (a) ties to the spec)
+    sel_cache = {}
+
+    def selected(var, key):
+        k = (var, key.base.get_id(), z3.simplify(key.off).get_id(), z3.simplify(key.ln).get_id()) if isinstance(key, Str) else (var, key)
+        if k not in sel_cache:
             okc = []
             for cond, kindp, pairs in sel_paths:
                 if kindp != 'ok': continue
-                okc.append(z3.And(cond, z3.Or(*[z3.And(z3.BoolVal(v == var), key_eq(k, key)) for v, k in pairs]) if pairs else z3.BoolVal(False)))
-            viol.append(z3.And(o.cond(), z3.Not(z3.Or(*okc) if okc else z3.BoolVal(False))))
-    r, m = C.solve(f'{label}: every state read of auth_check is a selected auth-event key ({nreads} reads on {len(outs)} paths)',
-                   base + [applicable] + list(E.axioms) + [z3.Or(*viol) if viol else z3.BoolVal(False)])
+                hits = [key_eq(kk, key) for v, kk in pairs if v == var]
+                if hits:
+                    okc.append(z3.And(cond, z3.Or(*hits)))
+            sel_cache[k] = z3.Or(*okc) if okc else z3.BoolVal(False)
+        return sel_cache[k]
+    for o in outs:
+        fetches = [n for n in o.st.notes if n[0] == 'fetch']
+        nreads += len(fetches)
+        miss = [z3.Not(selected(var, key)) for _, var, key in fetches]
+        if miss:
+            viol.append(z3.And(o.cond(), z3.Or(*miss)))
+    r, m = C.solve_split(f'{label}: every state read of auth_check is a selected auth-event key ({nreads} reads on {len(outs)} paths)',
+                         base + [applicable] + list(E.axioms), viol)
     if r == 'sat':
         vec = SPEC.concretise(w, m, version)
         res = C.native(vec)
@@ -186,6 +196,8 @@ def expected_selection(vec, version):
         if ms == 'invite' and 'third_party_invite' in inc['content']:
             tp = inc['content']['third_party_invite']
             if not isinstance(tp, dict):
+                return 'err'
+            if not isinstance(tp.get('signed', {}).get('token'), str):
                 return 'err'
             pairs.add(('m.room.third_party_invite', tp['signed']['token']))
         if ms == 'join' and version >= 8 and 'join_authorised_via_users_server' in inc['content']:
